@@ -1702,14 +1702,17 @@ def _gauss_solve(a, b):
             b[[c, p]] = b[[p, c]]
         for r in range(c + 1, n):
             f = a[r, c] / a[c, c]
-            a[r, c:] = a[r, c:] - f * a[c, c:]
-            b[r] = b[r] - f * b[c]
+            for k in range(c, n):
+                a[r, k] = a[r, k] - f * a[c, k]
+            for j in range(b.shape[1]):
+                b[r, j] = b[r, j] - f * b[c, j]
     x = np.empty(b.shape, dtype=object)
     for r in range(n - 1, -1, -1):
-        acc = b[r]
-        for k in range(r + 1, n):
-            acc = acc - a[r, k] * x[k]
-        x[r] = acc / a[r, r]
+        for j in range(b.shape[1]):
+            acc = b[r, j]
+            for k in range(r + 1, n):
+                acc = acc - a[r, k] * x[k, j]
+            x[r, j] = acc / a[r, r]
     return x
 
 
